@@ -32,22 +32,32 @@ class MalCompiler:
         self.current_file = None
 
     def compile(self, malfile: Optional[str] = None):
-        if not self.path:
-            self.path = os.path.dirname(malfile)
+        # The path of an included file is relative to the file that includes
+        # it. Remember where we were, the including file continues from there
+        # once the included one is done (and a finished compiler starts over).
+        previous_path = self.path
+        previous_file = self.current_file
+        if self.path is not None and not os.path.isabs(malfile):
+            malfile = os.path.join(self.path, malfile)
 
+        self.path = os.path.dirname(malfile)
         self.current_file = os.path.basename(malfile)
 
-        input_stream = FileStream(
-            os.path.join(self.path, self.current_file), encoding="utf-8"
-        )
-        error_listener = MalErrorListener(self.current_file)
-        lexer = malLexer(input_stream)
-        lexer.removeErrorListeners()
-        lexer.addErrorListener(error_listener)
-        stream = CommonTokenStream(lexer)
-        parser = malParser(stream)
-        parser.removeErrorListeners()
-        parser.addErrorListener(error_listener)
-        tree = parser.mal()
+        try:
+            input_stream = FileStream(
+                os.path.join(self.path, self.current_file), encoding="utf-8"
+            )
+            error_listener = MalErrorListener(self.current_file)
+            lexer = malLexer(input_stream)
+            lexer.removeErrorListeners()
+            lexer.addErrorListener(error_listener)
+            stream = CommonTokenStream(lexer)
+            parser = malParser(stream)
+            parser.removeErrorListeners()
+            parser.addErrorListener(error_listener)
+            tree = parser.mal()
 
-        return malVisitor(compiler=self).visit(tree)
+            return malVisitor(compiler=self).visit(tree)
+        finally:
+            self.path = previous_path
+            self.current_file = previous_file
